@@ -55,7 +55,7 @@ class UserError(Exception):
 EXC = {'ValueError': ValueError, 'TypeError': TypeError, 'KeyError': KeyError, 'AttributeError': AttributeError,
        'RecursionError': RecursionError, 'UserError': UserError, 'LookupError': LookupError, 'AssertionError': AssertionError}
 
-SITES = ['wrapped', 'is', 'is_and', 'is_or', 'is_not', 'isattr', 'instancecheck', 'subclasscheck', 'literal_eq']
+SITES = ['wrapped', 'is', 'is_and', 'is_or', 'is_not', 'isattr', 'instancecheck', 'subclasscheck', 'literal_eq', 'instancecheck_str']
 SHAPES = ['bare', 'list', 'dict_value', 'tuple', 'optional', 'union']
 BAD_HINTS = ['int_instance', 'string_nosuch', 'object_instance', 'lambda', 'module', 'literal_unhashable', 'literal_empty_list',
              'annotated_plain_meta', 'final', 'classvar', 'tuple_of_ints', 'dict_instance', 'hash_raises', 'repr_raises', 'eq_raises',
@@ -166,6 +166,16 @@ def _build_fault_hint(case, fault):
             core, good, bad = Hooked, Sub(), 5
         else:
             core, good, bad = typing.Type[Hooked], Sub, int
+    elif site == 'instancecheck_str':
+        # beartype's plugin hook: a metaclass method that words the explanation of a failed isinstance() check
+        class MetaStr(type):
+            def __instancecheck_str__(cls, obj):
+                fault.tick()
+                return '%r is not one of mine' % (obj,)
+
+        class Worded(metaclass=MetaStr):
+            pass
+        core, good, bad = Worded, Worded(), 5
     elif site == 'literal_eq':
         class Eq:
             def __eq__(self, other):
